@@ -172,6 +172,7 @@ class Engine:
         self.uf: dict[str, z3.FuncDeclRef] = {}
         self.extra_axioms: list = []
         self.measure_arrays: dict[str, object] = {}
+        self.under_construction: list = []             # references whose constructor is being executed symbolically
         self.exists_mem_patterns = False               # contract option: any(... for x in seq) gets the pattern Mem(seq, x)
         self.spec_default_reads = False                 # contract option: d[k] in a specification reads a defaultdict as `get(k, 0)`
         self._native_mods: dict[str, object] = {}
@@ -371,12 +372,17 @@ class Engine:
         st.assume(QForAll([r], z3.Implies(z3.Select(al0, r), z3.Select(cur, r)), patterns=[z3.Select(cur, r)]))
 
     def assume_imm_wf(self, st: State):
+        """what an allocated, FULLY CONSTRUCTED object references through an immutable field is allocated.  Objects whose
+        constructor is still running (self.under_construction) are excluded: their immutable fields are assigned later,
+        possibly to objects created after them (e.g. Node.__init__: self.id = uuid.uuid4())."""
         alc = self.alloc(st)
         wr = z3.Const("wr", ty.RefSort)
+        done = [wr != u for u in self.under_construction]
         for (owner, fname), f in list(self.imm.items()):
             if f.range() == ty.RefSort and self.spec.classes.get(owner, {}).get("fields", {}).get(fname, (None,))[0] is not None \
                     and self.spec.classes[owner]["fields"][fname][0].kind != "fn":
-                st.assume(QForAll([wr], z3.Implies(z3.Select(alc, wr), z3.Or(f(wr) == ty.null, z3.Select(alc, f(wr)))), patterns=[f(wr)]))
+                st.assume(QForAll([wr], z3.Implies(z3.And(z3.Select(alc, wr), *done), z3.Or(f(wr) == ty.null, z3.Select(alc, f(wr)))),
+                                  patterns=[f(wr)]))
 
     def new_list(self, st, elem_t: T, seq=None) -> V:
         lv = self.new_ref(st, ty.List(elem_t), "list")
@@ -1028,7 +1034,7 @@ class Engine:
                     return V(r[1], self.h(st, ("glob", cname, attr, r[1])))
                 return self.const(getattr(getattr(self.native_module(mod), cname), attr))
             raise CheckerError(f"{fr.qname}: class attribute {cname}.{attr} not modelled")
-        if k == "modref":
+        if k == "modref" or k == "super":
             return V(BOUND, None, (base, attr))
         if k == "enum":
             ename = base.t.args[0]
